@@ -2,6 +2,7 @@
 //! Fault enumeration: every write boundary of every generated history is crashed (before_write hook).
 
 use serde_json::{json, Value};
+use ckb_types::prelude::*;
 use std::cell::RefCell;
 use std::rc::Rc;
 
@@ -12,7 +13,7 @@ use super::super::out::{Out, RunCfg};
 use super::super::refidx::{self, Registered, ST};
 use super::super::rng::Rng;
 use super::super::util::{guarded, CrashHere, Unwound};
-use super::super::world::{NoHook, World};
+use super::super::world::World;
 use super::common::*;
 
 pub const R_RECOVER: u64 = 200;
@@ -43,8 +44,13 @@ fn gen_history(seed: u64) -> (History, super::super::chain::ChainParams, super::
     let (_now, base_ts) = time_base();
     let mut params = gen_params(&mut rng, seed, base_ts);
     params.tx_density = *rng.pick(&[60, 100]);
-    params.n_locks = rng.range(2, 4) as usize;
-    params.n_types = rng.range(0, 2) as usize;
+    // every script of the universe is active on the chain; the registered ones are drawn from the subset whose index keys
+    // cannot continue one another (args [] / [00] / [00 00] alias through the block-number bytes, C13's KF08): histories
+    // leave data of unregistered scripts behind, and a prefix search must not reach it
+    params.n_locks = 7;
+    params.n_types = *rng.pick(&[0usize, 4]);
+    const LOCKS: [usize; 4] = [1, 2, 4, 6];
+    const TYPES: [usize; 2] = [1, 3];
     let len = rng.range(8, 36);
     let mut ccfg = gen_ccfg(&mut rng);
     ccfg.last_n = *rng.pick(&[3u64, 5, 10, 100]);
@@ -52,7 +58,7 @@ fn gen_history(seed: u64) -> (History, super::super::chain::ChainParams, super::
     let pick_regs = |rng: &mut Rng| -> Registered {
         let mut r: Registered = vec![];
         for _ in 0..rng.range(1, 3) {
-            let (s, st) = if params.n_types > 0 && rng.chance(1, 4) { (type_script(rng.pick_idx(params.n_types)), ST::Type) } else { (lock_script(rng.pick_idx(params.n_locks)), ST::Lock) };
+            let (s, st) = if params.n_types > 0 && rng.chance(1, 4) { (type_script(*rng.pick(&TYPES)), ST::Type) } else { (lock_script(*rng.pick(&LOCKS)), ST::Lock) };
             if !r.iter().any(|(a, b, _)| a == &s && *b == st) {
                 r.push((s, st, 0)); // all start numbers 0: the reference is exact for the whole chain
             }
@@ -89,6 +95,11 @@ struct RunResult {
     crashed: Option<(u64, &'static str, String)>,
     restart_panic: Option<String>,
     converged: bool,
+    rebased_start: bool,
+    /// an honest peer was banned during the run (stale per-peer filter hashes after a fork switch: C05's KF02 family)
+    banned: Option<String>,
+    /// index of the act during which the crash happened (None: while opening the store)
+    crash_act: Option<usize>,
     mismatch: Option<String>,
     panic: Option<String>,
     sites: Vec<(&'static str, String)>,
@@ -106,12 +117,12 @@ fn act_label(a: &Act) -> &'static str {
     }
 }
 
-fn do_act(w: &mut World, net: &mut HonestNet, a: &Act) -> Result<(), Unwound> {
+fn do_act(w: &mut World, net: &mut HonestNet, a: &Act, hook: &mut ForkWatch) -> Result<(), Unwound> {
     match a {
         Act::Converge => {
             let main = net.main;
             for _ in 0..8 {
-                if w.run_until(&mut NoHook, 12, |w| w.converged_on(main)).is_some() || w.dead {
+                if w.run_until(hook, 12, |w| w.converged_on(main)).is_some() || w.dead {
                     break;
                 }
                 net.grow(w, 1);
@@ -120,7 +131,7 @@ fn do_act(w: &mut World, net: &mut HonestNet, a: &Act) -> Result<(), Unwound> {
         }
         Act::Rounds(n) => {
             for _ in 0..*n {
-                w.round(&mut NoHook);
+                w.round(hook);
             }
             Ok(())
         }
@@ -128,7 +139,14 @@ fn do_act(w: &mut World, net: &mut HonestNet, a: &Act) -> Result<(), Unwound> {
             net.grow(w, *n);
             Ok(())
         }
-        Act::SetAll(r) => guarded(|| set_scripts(w, r, Some(SetScriptsCommand::All))),
+        Act::SetAll(r) => {
+            if std::env::var("VERIF_DEBUG").is_ok() && w.client.is_some() {
+                eprintln!("DBG SetAll starts={:?} minf={} tip={} chain_tip={} pending={} current={:?}", r.iter().map(|(s, st, n)| (super::super::out::hex(&s.as_slice()[s.as_slice().len() - 6..]), *st as u8, *n)).collect::<Vec<_>>(),
+                    w.c().storage.get_min_filtered_block_number(), w.c().storage.get_tip_header().raw().number(), w.chains[net.main].tip(), w.matched_pending(),
+                    get_scripts(w).iter().map(|(s, st, n)| (super::super::out::hex(&s.as_slice()[s.as_slice().len() - 6..]), *st as u8, *n)).collect::<Vec<_>>());
+            }
+            guarded(|| set_scripts(w, r, Some(SetScriptsCommand::All)))
+        }
         Act::Delete(r) => guarded(|| set_scripts(w, r, Some(SetScriptsCommand::Delete))),
         Act::Restart => {
             if w.restart().is_err() {
@@ -143,7 +161,7 @@ fn do_act(w: &mut World, net: &mut HonestNet, a: &Act) -> Result<(), Unwound> {
             if w.client.is_none() {
                 return Ok(());
             }
-            w.pump(&mut NoHook, 10_000);
+            w.pump(hook, 10_000);
             if w.dead || w.client.is_none() {
                 return Ok(());
             }
@@ -157,6 +175,7 @@ fn do_act(w: &mut World, net: &mut HonestNet, a: &Act) -> Result<(), Unwound> {
             }
             let at = cands[(cands.len() - 1).saturating_sub(*depth_back as usize)];
             net.fork(w, at, main_tip - at + extra, *salt);
+            hook.switched = Some((net.main, at));
             net.grow(w, 1);
             Ok(())
         }
@@ -179,12 +198,13 @@ fn run_history(h: &History, params: &super::super::chain::ChainParams, ccfg: &su
             std::panic::panic_any(CrashHere(k, site));
         }
     }));
-    let mut res = RunResult { writes: 0, crashed: None, restart_panic: None, converged: false, mismatch: None, panic: None, sites: vec![], trace: vec![] };
+    let mut res = RunResult { writes: 0, crashed: None, restart_panic: None, converged: false, rebased_start: false, banned: None, crash_act: None, mismatch: None, panic: None, sites: vec![], trace: vec![] };
     let main = Chain::generate(params.clone(), h.len);
     let mut w = World::new(main, ccfg.clone(), h.seed, now);
     let mut net = HonestNet::new(0);
     w.add_peer(0, true);
     let mut pending_rpc: Option<Act> = None;
+    let mut watch = ForkWatch::default();
     let mut i = 0;
     let mut crashed_once = false;
     if !w.dead {
@@ -215,6 +235,7 @@ fn run_history(h: &History, params: &super::super::chain::ChainParams, ccfg: &su
             let g = counter.borrow();
             let (site, during) = g.1.last().cloned().unwrap_or(("?", "?".into()));
             res.crashed = Some((g.0, site, during));
+            res.crash_act = if i == 0 { None } else { Some(i - 1) };
             drop(g);
             crate::verif_hook::clear();
             for attempt in 0..2 {
@@ -230,7 +251,7 @@ fn run_history(h: &History, params: &super::super::chain::ChainParams, ccfg: &su
             w.connect_all();
             // the user repeats the RPC call that was interrupted
             if let Some(a) = pending_rpc.take() {
-                let _ = do_act(&mut w, &mut net, &a);
+                let _ = do_act(&mut w, &mut net, &a, &mut watch);
             }
             if i > 0 && matches!(h.acts[i - 1], Act::Converge) {
                 i -= 1; // the quiescent point was not reached: wait for it again
@@ -244,7 +265,7 @@ fn run_history(h: &History, params: &super::super::chain::ChainParams, ccfg: &su
         i += 1;
         counter.borrow_mut().2 = act_label(&a).to_string();
         let is_rpc = matches!(a, Act::SetAll(_) | Act::Delete(_));
-        match do_act(&mut w, &mut net, &a) {
+        match do_act(&mut w, &mut net, &a, &mut watch) {
             Ok(()) => {}
             Err(Unwound::Crash(..)) => {
                 w.dead = true;
@@ -276,7 +297,7 @@ fn run_history(h: &History, params: &super::super::chain::ChainParams, ccfg: &su
     net.grow(&mut w, 1);
     let main = net.main;
     for _ in 0..R_RECOVER / 10 {
-        if w.run_until(&mut NoHook, 10, |w| w.converged_on(main)).is_some() {
+        if w.run_until(&mut watch, 10, |w| w.converged_on(main)).is_some() {
             res.converged = true;
             break;
         }
@@ -299,7 +320,32 @@ fn run_history(h: &History, params: &super::super::chain::ChainParams, ccfg: &su
         if want.iter().any(|x| !have.contains(x)) || have.iter().any(|x| !want.contains(x)) {
             res.mismatch = Some(format!("registered scripts differ: want {} have {}", want.len(), have.len()));
         } else {
-            let cmp = refidx::compare(&w.c().rpc_filter(), chain, chain.tip(), &regs, &idx);
+            let mut cmp = refidx::compare(&w.c().rpc_filter(), chain, chain.tip(), &regs, &idx);
+            // a prefix search also returns the cells of other scripts whose key continues the search key (C13, KF08),
+            // among them stale cells of scripts that are no longer registered: only cells owned by the searched script are judged here
+            cmp.phantom_cells.retain(|(name, c)| *name == format!("Lock:{}", c.lock) || *name == format!("Type:{}", c.type_));
+            if !cmp.ok() && std::env::var("VERIF_DEBUG").is_ok() {
+                eprintln!("DBG MISMATCH crash_at={:?} scripts={:?} phantom={:?}", crash_at, get_scripts(&w).iter().map(|(s, st, n)| (super::super::out::hex(&s.as_slice()[s.as_slice().len() - 6..]), *st as u8, *n)).collect::<Vec<_>>(), cmp.phantom_cells.first());
+                eprintln!("DBG   bogus={:?} switched={:?} rebased={} reorgreq={}", cmp.bogus_history.iter().take(6).map(|(n, t)| (n[n.len() - 8..].to_string(), t.block, t.io_type)).collect::<Vec<_>>(), watch.switched, watch.rebased_start, watch.reorg_section_requested);
+                for (_, t) in cmp.bogus_history.iter().take(3) {
+                    let on_new: Vec<(u64, u32)> = chain.txs.iter().filter(|(h, _)| super::super::out::hex(h.as_slice()) == t.tx_hash).map(|(_, (_, b, i))| (*b, *i)).collect();
+                    eprintln!("DBG   bogus entry {:?}: the same tx hash on the final chain at {:?}", t, on_new);
+                }
+                for l in w.trace_vec().iter().filter(|l| l.contains("LastStateProof") || l.contains("BAN") || l.contains("SendBlock(") || l.contains("BlockFilters(")) {
+                    eprintln!("DBG   trace {}", l);
+                }
+                if let Some((_, c)) = cmp.phantom_cells.first() {
+                    for (n, b) in chain.blocks.iter().enumerate() {
+                        for tx in b.transactions().iter() {
+                            for op in tx.input_pts_iter() {
+                                if super::super::out::hex(op.tx_hash().as_slice()) == c.tx_hash {
+                                    eprintln!("DBG   spent in block {}", n);
+                                }
+                            }
+                        }
+                    }
+                }
+            }
             if !cmp.ok() {
                 res.mismatch = Some(format!(
                     "phantom {} missing_cells {} bogus_history {} missing_history {} capacity {}: first {:?} {:?} {:?}",
@@ -312,6 +358,8 @@ fn run_history(h: &History, params: &super::super::chain::ChainParams, ccfg: &su
         res.mismatch = Some(format!("not converged within {} rounds: min_filtered {} chain tip {} pending {} bans {}", R_RECOVER, w.c().storage.get_min_filtered_block_number(), w.chains[main].tip(), w.matched_pending(), w.bans.len()));
         res.trace = w.trace_vec().into_iter().rev().take(30).collect();
     }
+    res.rebased_start = watch.rebased_start;
+    res.banned = w.bans.first().map(|(_, r)| r.split(':').next().unwrap_or("").to_string());
     w.close();
     res
 }
@@ -353,7 +401,70 @@ pub fn run(cfg: &RunCfg, out: &Out) {
             };
             out.eval(1);
             out.count("crash_points_run", 1);
-            let forky = if h.acts.iter().any(|a| matches!(a, Act::Fork { .. })) { "fork-in-history" } else { "no-fork" };
+            // differential control: the same history with a *clean* restart (all writes of the interrupted act done) at the
+            // same act boundary. A mismatch that the clean restart produces as well is not caused by the torn operation:
+            // it is one of the restart / fork timing defects decided by C04 / C05 and is only counted here.
+            if r.restart_panic.is_none() && r.panic.is_none() && r.mismatch.is_some() {
+                let mut acts = h.acts.clone();
+                let at = r.crash_act.map(|i| (i + 1).min(acts.len())).unwrap_or(0);
+                acts.insert(at, Act::Restart);
+                let hc = History { seed: h.seed, len: h.len, acts, desc: h.desc.clone() };
+                let c = run_history(&hc, &params, &ccfg, None);
+                out.count("control_runs_with_clean_restart", 1);
+                if c.mismatch.is_some() || c.panic.is_some() || !c.converged {
+                    out.count("mismatch_also_with_clean_restart_at_same_point", 1);
+                    out.cell(&format!("{}|{}|not-attributable-to-the-crash", site, during));
+                    continue;
+                }
+            }
+            let forky = if h.acts.iter().any(|a| matches!(a, Act::Fork { .. })) {
+                // after the recovery the fork switch was proven through a request whose start had been rebased onto a remembered
+                // header (no reorg section, C04's undetected shallow reorg) - or through a request answered with a reorg section
+                // a script that was dropped by set_scripts before a fork and registered again after it: the data it left behind
+                // is neither purged nor rolled back (KF42)
+                let mut reregistered = false;
+                {
+                    let mut current: Vec<(ckb_types::packed::Script, ST)> = vec![];
+                    let mut dropped_before_fork: Vec<(ckb_types::packed::Script, ST)> = vec![];
+                    let mut dropped: Vec<(ckb_types::packed::Script, ST)> = vec![];
+                    for a in h.acts.iter() {
+                        match a {
+                            Act::SetAll(regs) => {
+                                let new: Vec<_> = regs.iter().map(|(s, st, _)| (s.clone(), *st)).collect();
+                                if new.iter().any(|x| dropped_before_fork.contains(x)) {
+                                    reregistered = true;
+                                }
+                                for x in current.iter() {
+                                    if !new.contains(x) {
+                                        dropped.push(x.clone());
+                                    }
+                                }
+                                current = new;
+                            }
+                            Act::Delete(regs) => {
+                                for (s, st, _) in regs.iter() {
+                                    if let Some(p) = current.iter().position(|x| x.0 == *s && x.1 == *st) {
+                                        dropped.push(current.remove(p));
+                                    }
+                                }
+                            }
+                            Act::Fork { .. } => dropped_before_fork.extend(dropped.iter().cloned()),
+                            _ => {}
+                        }
+                    }
+                }
+                if r.rebased_start {
+                    "fork-in-history+rebased-start".to_string()
+                } else if reregistered {
+                    "fork-in-history+script-reregistered-across-fork".to_string()
+                } else if let Some(code) = &r.banned {
+                    format!("fork-in-history+honest-peer-banned:{}", code)
+                } else {
+                    "fork-in-history".to_string()
+                }
+            } else {
+                "no-fork".to_string()
+            };
             let outcome = if r.restart_panic.is_some() { "restart-panic" } else if r.panic.is_some() { "panic-after-recovery" } else if r.mismatch.is_some() { "answers-differ" } else { "recovered" };
             out.cell(&format!("{}|{}|{}", site, during, outcome));
             let detail = json!({"history": h.desc, "crash_before_write": kk, "of": w_total, "site": site, "during": during, "restart_panic": r.restart_panic, "panic": r.panic, "mismatch": r.mismatch, "trace": r.trace,
